@@ -5,6 +5,7 @@ import (
 	"encoding/json"
 	"flag"
 	"fmt"
+	"go/token"
 	"go/types"
 	"os"
 	"os/exec"
@@ -514,6 +515,28 @@ func realMain() int {
 			ur.Props = u.sw.Props
 			x.kindFilter = u.sw.Kinds
 			finals = x.verifySweep(u.sw)
+		}
+		// every mutex taken by the function is released again when it returns
+		// (a lock left held wedges the next caller for good)
+		if u.con == nil || !u.con.Lemma {
+			for _, f := range finals {
+				var leaked []string
+				for k, m := range f.held {
+					if m != 0 && f.ghost["assumedheld:"+k] == "" {
+						if n := lockNameOf(x, k); n != "" {
+							leaked = append(leaked, n)
+						} else {
+							leaked = append(leaked, k)
+						}
+					}
+				}
+				sort.Strings(leaked)
+				goal := "true"
+				if len(leaked) > 0 {
+					goal = "false"
+				}
+				x.oblige(f, "lock."+ur.Name+".released-at-return", "lock", goal, token.NoPos, "mutex still held when the function returns: "+strings.Join(leaked, " "))
+			}
 		}
 		x.wg.Wait()
 		ur.Paths = x.pathN + 1
